@@ -10,6 +10,8 @@ import re
 from mir import pl_fields, operand_places
 from tmpl import site, suffix
 from rules.c12 import returns_true_for
+from rules.c03 import commit_publishes_rule
+from rules.c06 import block_aligned_batches_rule
 
 FLAGS = {
     'storage::StorageImpl::support_range_filter_scan': 'storage::ScanOptions::filter',
@@ -98,8 +100,10 @@ def run(ctx):
                  and (bl['term'].get('adt') or '').endswith('storage::StorageImpl')})
     ctx.extra['engine_switches'] = sw
     ctx.note(f'C05-R2: functions matching on StorageImpl: {sw}')
-    from rules.c03 import commit_publishes_rule
     commit_publishes_rule(ctx, prog, 'C05-R4')
+    # a layout detail of the disk engine that must not leak into results (after seed C05-d)
+    block_aligned_batches_rule(ctx, prog, 'C05-R6')
+    empty_chunk_rule(ctx, prog)
 
     R5 = 'C05-R5'
     ctx.rule(R5, 'what the planner knows about the engine is per database: the fields of optimizer::Config (enable_range_filter_scan, '
@@ -141,3 +145,40 @@ def _feeds_only_assert(g, bb):
             return False
         cur = ss[0]
     return False
+
+
+def empty_chunk_rule(ctx, prog):
+    """C05-R7: an empty chunk is an ordinary input of Transaction::append on both engines"""
+    from tmpl import origin_locals, local_defs
+    R7 = 'C05-R7'
+    ctx.rule(R7, 'an operator may hand an empty chunk to INSERT (a filter that selects nothing). The in-memory engine stores it; on the disk '
+                 'engine RowsetWriter::flush refuses a row-set without rows (panic "empty rowset"), so the one place that opens a mem row-set, '
+                 'SecondaryTransaction::append_inner, must not open one for a chunk without rows: the creation of SecondaryMemRowsetImpl is '
+                 'dominated by a test of the chunk\'s cardinality against zero')
+    b = prog.body('storage::secondary::transaction::SecondaryTransaction::append_inner::{closure#0}')
+    fl = next((x for n, x in prog.bodies.items() if n.endswith('rowset_writer::RowsetWriter::flush::{closure#0}')), None)
+    if not (ctx.anchor(R7, 'SecondaryTransaction::append_inner', b is not None) and ctx.anchor(R7, 'RowsetWriter::flush', fl is not None)):
+        return
+    ctx.functions_analysed.update([b.name, fl.name])
+    refuses = [c.bb for c in fl.calls if (c.fn or '').endswith('EncodedRowset::is_empty')]
+    news = [c.bb for c in b.calls if (c.fn or '').endswith('SecondaryMemRowsetImpl::new')]
+    if not ctx.anchor(R7, 'append_inner opens the mem row-set', news):
+        return
+    tests = []
+    for i, bl in enumerate(b.blocks):
+        t = bl['term']
+        if t['k'] != 'switch' or bl['cleanup'] or t['discr']['k'] == 'const':
+            continue
+        src = origin_locals(b, t['discr']['pl']['l'], depth=4)
+        card = any(c.dest['l'] in src and re.search(r'DataChunk::cardinality$|::is_empty$', c.fn or '') for c in b.calls)
+        zero = any(kind == 'assign' and p_.get('rv') == 'binop' and p_['op'] in ('Eq', 'Ne', 'Gt', 'Lt') and
+                   any(o.get('k') == 'const' and str(o.get('v', '')).startswith('0') for o in (p_['a'], p_['b']))
+                   for x in src for _, kind, p_ in local_defs(b, x))
+        if card and (zero or any(c.dest['l'] in src and (c.fn or '').endswith('::is_empty') for c in b.calls)):
+            tests.append(i)
+    ok = bool(tests) and all(b.dominated_by_any(set(tests), n) for n in news)
+    ctx.ob(R7, 'SecondaryTransaction::append_inner·no-row-set-for-an-empty-chunk', ok or not refuses,
+           f'RowsetWriter::flush tests EncodedRowset::is_empty at {refuses}; append_inner opens the mem row-set at {news}; tests of the '
+           f'chunk\'s cardinality before that: {tests}', [site(b, n) for n in news],
+           what='an empty chunk opens a row-set on the disk engine that can not be flushed: `insert into t select .. from s where false-for-all-rows` '
+                'succeeds on the in-memory engine and fails on the disk engine (executor panicked: empty rowset)')
